@@ -581,13 +581,13 @@ class JSONSchemaMaker:
             }
             self.names[node.unique_name] = json_schema
 
-            properties_schema = {
-                c.unique_name: self.build_json_schema(c, path + (cast(str, node.name),))
-                for c in node.children
-            }
             # NOTE! Side effect of ``self.build_json_schema()`` is to add properties.
-            # Our new properties must preserve those via an update.
-            json_schema["properties"].update(properties_schema)
+            # Each child is added in turn, to keep the properties in COBOL source order.
+            for c in node.children:
+                child_schema = self.build_json_schema(
+                    c, path + (cast(str, node.name),)
+                )
+                json_schema["properties"][c.unique_name] = child_schema
 
         else:
             # Elementary
